@@ -1,6 +1,6 @@
 """Engine P child: one simulated process configuration.
 
-usage: c09_child.py <repo> <batch.json> [full]
+usage: c09_child.py <repo> <batch.json> [full|hash] [order seed]
 Processes every document of the batch in this interpreter and prints one JSON
 line `RESULT {...}`.  Run by the parent under a chosen PYTHONHASHSEED, with
 ASLR off (setarch -R) and an environment padding of chosen length.
@@ -34,6 +34,7 @@ def _clear_caches():
 def main(argv):
     repo, batch_path = argv[1], argv[2]
     full = len(argv) > 3 and argv[3] == "full"
+    order = int(argv[4]) if len(argv) > 4 else 0
     sys.path.insert(0, repo)
     warnings.simplefilter("ignore")
     import statham
@@ -59,7 +60,12 @@ def main(argv):
         "hashseed": __import__("os").environ.get("PYTHONHASHSEED"),
         "docs": {},
     }
-    for doc in batch["docs"]:
+    docs = list(batch["docs"])
+    if order:
+        import random
+
+        random.Random(order).shuffle(docs)
+    for doc in docs:
         uri = doc["uri"]
         res = {}
         _clear_caches()
